@@ -259,6 +259,31 @@ Proof.
   rewrite filter_filter. reflexivity.
 Qed.
 
+(* ---- the same facts in the form used by the store proofs ---- *)
+Lemma set_insert_eq x l l' b : ssorted l -> set_insert x l = (l', b) ->
+  ssorted l' /\ (forall y, In y l' <-> y = x \/ In y l) /\ (b = true <-> ~ In x l)
+  /\ (b = false -> l' = l) /\ (b = true -> Permutation l' (x :: l)).
+Proof.
+  intros Hs E.
+  pose proof (set_insert_sorted x l Hs) as H1. pose proof (set_insert_in x l) as H2.
+  pose proof (set_insert_flag x l Hs) as H3. pose proof (set_insert_false x l) as H4.
+  pose proof (set_insert_true_perm x l) as H5. rewrite E in *. simpl in *.
+  split; [exact H1|]. split; [exact H2|]. split; [exact H3|]. split; [|exact H5].
+  intros Hb. apply H4 in Hb. tauto.
+Qed.
+Lemma set_remove_eq x l l' b : ssorted l -> set_remove x l = (l', b) ->
+  ssorted l' /\ incl l' l /\ (b = true <-> In x l) /\ (b = false -> l' = l)
+  /\ (b = true -> Permutation l (x :: l')) /\ ~ In x l'.
+Proof.
+  intros Hs E.
+  pose proof (set_remove_sorted x l Hs) as H1. pose proof (set_remove_incl x l) as H2.
+  pose proof (set_remove_flag x l Hs) as H3. pose proof (set_remove_false x l) as H4.
+  pose proof (set_remove_true_perm x l) as H5. pose proof (set_remove_notin x l Hs) as H6.
+  rewrite E in *. simpl in *.
+  split; [exact H1|]. split; [intros y Hy; auto|]. split; [exact H3|]. split; [exact H4|].
+  split; [exact H5 | exact H6].
+Qed.
+
 (* ---- a secondary index follows the primary one ---- *)
 Section Secondary.
 Variable perm : A -> A.
@@ -298,6 +323,18 @@ Proof.
   eapply perm_trans; [exact HP|].
   change (perm x :: map perm (fst (set_remove x prim))) with (map perm (x :: fst (set_remove x prim))).
   apply Permutation_map; auto.
+Qed.
+Lemma image_insert_eq prim prim' sec x :
+  ssorted prim -> image_of sec prim -> set_insert x prim = (prim', true) ->
+  image_of (fst (set_insert (perm x) sec)) prim'.
+Proof.
+  intros Hp Hi E. pose proof (image_insert prim sec x Hp Hi) as H. rewrite E in H. simpl in H. auto.
+Qed.
+Lemma image_remove_eq prim prim' sec x :
+  ssorted prim -> image_of sec prim -> set_remove x prim = (prim', true) ->
+  image_of (fst (set_remove (perm x) sec)) prim'.
+Proof.
+  intros Hp Hi E. pose proof (image_remove prim sec x Hp Hi) as H. rewrite E in H. simpl in H. auto.
 Qed.
 End Secondary.
 
